@@ -4,7 +4,7 @@ is attributed to the property that states it), cached per (gearpy sources, speci
 from __future__ import annotations
 import fcntl, glob, hashlib, json, os, random, time
 from . import solver_rec, solver_gen
-from .core import VERIF, SPEC, repo_hash, Verdict, finish, Machinery, import_repo
+from .core import VERIF, SPEC, repo_hash, Verdict, finish, Machinery, import_repo, mc_cached, add_mc
 from .tv import validate
 
 PREFIX = {
@@ -102,10 +102,29 @@ def campaign(tier, seed):
         return out
 
 
+MC_INV = {'C01': 'C01_Coupled', 'C02': 'C02_Torques', 'C03': 'C03_Motion', 'C11': 'C11_Grid', 'C13': 'C13_SignSafe, C13_NoClamp, C13_HeldMeansStill',
+          'C14': 'C14_Range', 'C16': 'C16_FirstHit', 'C17': 'C17_Rect'}
+
+
+def design_level(v, pid, tier):
+    """design-level model checking behind this property (cached per specification version)"""
+    if pid in MC_INV:
+        cfg = 'MC_Solver_quick.cfg' if tier == 'quick' else 'MC_Solver.cfg'
+        add_mc(v, mc_cached('MC_Solver', cfg), f'Solver.tla state machine, all schedules (new solver / run / continue / reset / rerun) over exact instances; invariants {MC_INV[pid]}')
+        if pid == 'C16':
+            add_mc(v, mc_cached('MC_Solver', 'MC_Solver_stop.cfg'), 'Solver.tla with stop conditions (sensors x operators x thresholds): invariant C16_FirstHit')
+    if pid == 'C13':
+        add_mc(v, mc_cached('LockAbs', 'LockAbs.cfg', workers=4), 'LockAbs.tla: sign abstraction of the lock machine, finite and exhaustive = all real parameter values; SafeSign, HeldStill, HeldPos, ResumeOnlyWhenDriven, NeverClampedWithoutSL')
+    if pid in ('C14', 'C15'):
+        add_mc(v, mc_cached('MC_Control', 'MC_Control.cfg', workers=1), 'Control.tla lemmas: arbitration over 9^3 proposal triples, inclusive timer window, StartLimitCurrent root => current law = limit')
+
+
 def run_prop(pid, tier, seed, text, known=None):
     v = Verdict(pid, tier, seed)
+    design_level(v, pid, tier)
     c = campaign(tier, seed)
-    v.states, v.transitions = c['states'], c['transitions']
+    v.states += c['states']
+    v.transitions += c['transitions']
     v.traces = c['n_traces']
     v.evaluations = c['instants']
     v.distinct = c['n_traces']
